@@ -150,6 +150,15 @@ pub fn c20_serde(c: &mut Ctx, a: W) {
     expect_de(c, "serde/malformed", "duplicate lo", &ins, a, guard(|| de_map(vec![("hi", a.0), ("lo", a.1), ("lo", a.1)])), false);
     expect_de(c, "serde/malformed", "unknown field", &ins, a, guard(|| de_map(vec![("hi", a.0), ("lo", a.1), ("x", 0.0)])), false);
     expect_de(c, "serde/malformed", "unknown field first", &ins, a, guard(|| de_map(vec![("mid", 0.0), ("hi", a.0), ("lo", a.1)])), false);
+    // near-miss field names and non-string field identifiers are unknown fields too
+    expect_de(c, "serde/malformed", "capitalised names", &ins, a, guard(|| de_map(vec![("Hi", a.0), ("Lo", a.1)])), false);
+    expect_de(c, "serde/malformed", "upper-case names", &ins, a, guard(|| de_map(vec![("HI", a.0), ("LO", a.1)])), false);
+    expect_de(c, "serde/malformed", "hi + Lo", &ins, a, guard(|| de_map(vec![("hi", a.0), ("Lo", a.1)])), false);
+    expect_de(c, "serde/malformed", "padded name", &ins, a, guard(|| de_map(vec![("hi ", a.0), ("lo", a.1)])), false);
+    expect_de(c, "serde/malformed", "extra capitalised field", &ins, a, guard(|| de_map(vec![("hi", a.0), ("lo", a.1), ("Hi", a.0)])), false);
+    expect_de(c, "serde/malformed", "integer keys", &ins, a, guard(|| TwoFloat::deserialize(MapDeserializer::<_, VErr>::new(vec![(0u64, a.0), (1u64, a.1)].into_iter())).map_err(|e| e.to_string())), false);
+    expect_de(c, "serde/malformed", "integer keys with extra", &ins, a, guard(|| TwoFloat::deserialize(MapDeserializer::<_, VErr>::new(vec![(0u64, a.0), (1u64, a.1), (7u64, 0.0)].into_iter())).map_err(|e| e.to_string())), false);
+    expect_de(c, "serde/malformed", "byte-string keys with extra", &ins, a, guard(|| TwoFloat::deserialize(MapDeserializer::<_, VErr>::new(vec![(serde::de::value::BytesDeserializer::<VErr>::new(b"hi"), a.0), (serde::de::value::BytesDeserializer::<VErr>::new(b"mid"), 0.0), (serde::de::value::BytesDeserializer::<VErr>::new(b"lo"), a.1)].into_iter())).map_err(|e| e.to_string())), false);
     expect_de(c, "serde/malformed", "1-sequence", &ins, a, guard(|| de_seq(vec![a.0])), false);
     expect_de(c, "serde/malformed", "empty sequence", &ins, a, guard(|| de_seq(vec![])), false);
     expect_de(c, "serde/malformed", "empty map", &ins, a, guard(|| de_map(vec![])), false);
